@@ -180,6 +180,9 @@ def check_scenario_step(ctx, R="C12.scenario"):
             ctx.ok(R, tl[0], "`terminate after N`: the scenario stops at the start of the step in which elapsed >= N")
         else:
             ctx.finding(R, tl[0], "time limit comparison", f"DynamicScenario._step tests `{t}`; the documented time limit is `elapsed >= limit` (with a None check)")
+    from .c13 import check_duration
+
+    check_duration(ctx, R)
     st = model.func(DS, "DynamicScenario._start")
     t = unparse(st)
     if "self._elapsedTime = 0" in t and "self._timeLimitInSteps /= timestep" in t and "if self._timeLimitIsInSeconds" in t:
@@ -257,7 +260,77 @@ def check_once_per_step(ctx, R="C12.logs"):
         ctx.finding(R, d, "default schedule", "Simulation.scheduleForAgents no longer returns self.agents")
 
 
+def check_requirement_kinds(ctx, R="C12.kinds"):
+    ctx.rule(
+        R,
+        "statements executed while a simulation runs (the setup block of a dynamically invoked sub-scenario) are filed by their kind: "
+        "in DynamicScenario._addDynamicRequirement only `require` reaches the temporal requirements / monitors, every other RequirementType "
+        "(terminate when, terminate simulation when, record ...) goes through the same type dispatch as compile-time statements; and every "
+        "class whose instances are put into the termination-condition / record lists offers what the consumers of those lists call",
+    )
+    model = ctx.model
+    ds = model.cls(DS, "DynamicScenario")
+    fn = ds.methods.get("_addDynamicRequirement")
+    if fn is None:
+        raise AnalysisError("DynamicScenario._addDynamicRequirement missing")
+    typ = fn.args.args[1].arg
+    adds = [n for n in walk_local(fn) if (isinstance(n, ast.Assign) and any(unparse(t) in ("self._temporalRequirements",) for t in n.targets)) or (isinstance(n, ast.Call) and isinstance(n.func, ast.Attribute) and n.func.attr in ("append", "extend") and unparse(n.func.value) in ("self._temporalRequirements", "self._requirementMonitors"))]
+    if not adds:
+        raise AnalysisError("shape not recognised: _addDynamicRequirement no longer adds temporal requirements")
+    bad = []
+    for a in adds:
+        conds = lib.path_conditions(a, fn)
+        only_require = any(
+            (lib.ctext(t) == lib.ctext_of(f"{typ} is RequirementType.require") and p) or (lib.ctext(t) == lib.ctext_of(f"{typ} is not RequirementType.require") and not p) or (lib.ctext(t) == lib.ctext_of(f"{typ} == RequirementType.require") and p) or (lib.ctext(t) == lib.ctext_of(f"{typ} != RequirementType.require") and not p)
+            for t, p in conds
+        )
+        if not only_require:
+            bad.append(a)
+    if bad:
+        ctx.finding(
+            R,
+            bad[0],
+            "every kind of dynamic statement is filed as a requirement",
+            f"DynamicScenario._addDynamicRequirement adds the statement to the temporal requirements / monitors (`{norm_text(bad[0], 60)}`) whatever its type `{typ}`: a `terminate when X` in the "
+            f"setup of a sub-scenario is monitored as a requirement and rejects the simulation while X is false, instead of ending the scenario when X becomes true",
+        )
+    else:
+        ctx.ok(R, fn, "only `require` statements become temporal requirements; other kinds are dispatched by type")
+    disp = [c for c in walk_local(fn) if isinstance(c, ast.Call) and unparse(c.func) == "self._registerCompiledRequirement"]
+    if disp:
+        ctx.ok(R, disp[0], "other kinds use the type dispatch of compile-time statements")
+    elif not bad:
+        ctx.finding(R, fn, "non-require dynamic statements dropped", "_addDynamicRequirement no longer files termination conditions and records anywhere")
+    # interface conformance of what the lists hold
+    lists = {"_terminationConditions", "_terminateSimulationConditions", "_recordedExprs", "_recordedInitialExprs", "_recordedFinalExprs"}
+    used = {}
+    for mname, f in ds.methods.items():
+        for lp in walk_local(f):
+            if isinstance(lp, ast.For) and isinstance(lp.target, ast.Name):
+                it = unparse(lp.iter)
+                tgt = None
+                if it.startswith("self.") and it[5:] in lists:
+                    tgt = it[5:]
+                elif it == "getattr(self, place)":
+                    tgt = "_recordedExprs"
+                if tgt:
+                    for a in ast.walk(lp):
+                        if isinstance(a, ast.Attribute) and isinstance(a.value, ast.Name) and a.value.id == lp.target.id:
+                            used.setdefault(tgt, set()).add(a.attr)
+    need = set().union(*used.values()) if used else set()
+    ctx.floor(R, len(need), 3, "attributes the consumers of the condition / record lists use")
+    for cname in ("BoundRequirement", "DynamicRequirement"):
+        ci = model.cls("scenic.core.requirements", cname)
+        have = set(ci.methods) | model.instance_attrs(ci) if hasattr(model, "instance_attrs") else set(ci.methods)
+        miss = sorted(a for a in need if a not in have)
+        if miss:
+            ctx.finding(R, ci.node, f"{cname} lacks {miss}", f"{cname} instances are put into the termination-condition / record lists of a scenario, whose consumers use {sorted(need)}; {cname} has no {miss}: reaching that consumer raises AttributeError")
+        else:
+            ctx.ok(R, ci.node, f"{cname} offers {sorted(need)}")
+
+
 def check(ctx):
+    check_requirement_kinds(ctx)
     check_run_order(ctx)
     check_scenario_step(ctx)
     check_once_per_step(ctx)
